@@ -48,6 +48,22 @@
 ///
 
 ///
+/// \fn QXmppAtmTrustStorage::removeKeysForPostponedTrustDecisions(const QString &encryption, const QMultiHash<QString, QByteArray> &keyIdsForAuthentication, const QMultiHash<QString, QByteArray> &keyIdsForDistrusting)
+///
+/// Removes keys for postponed authentication or distrusting of specific key
+/// owners.
+///
+/// Only the keys stored for the passed key owners are removed.
+/// Keys with the same IDs stored for other key owners are kept.
+///
+/// \param encryption encryption protocol namespace
+/// \param keyIdsForAuthentication key owners' bare JIDs mapped to the IDs of
+///        their keys for postponed authentication
+/// \param keyIdsForDistrusting key owners' bare JIDs mapped to the IDs of their
+///        keys for postponed distrusting
+///
+
+///
 /// \fn QXmppAtmTrustStorage::removeKeysForPostponedTrustDecisions(const QString &encryption, const QList<QByteArray> &senderKeyIds)
 ///
 /// Removes keys for postponed authentication or distrusting by the trust
